@@ -303,3 +303,17 @@ package workflow
 //@   ghostvar st task.Status = task.UNDEFINED
 //@   on aftercall .GetStatus : asked = true ; st = result
 //@   on return : assert result == (asked && st == task.ACTIVE)
+
+// ---------------------------------------------------------------------------------------------------------
+// C13 / C15: a copy of a role (what an iterator makes per element of its range) has its OWN outbound and inbound channel
+// declarations and constraints, equal to the original's at the time of the copy: resolving the template expressions of
+// one generated role in place never shows through in another.
+//@ func (r *roleBase) copy() (c copyable)
+//@   property C13
+//@   requires r != nil
+//@   ensures c is *roleBase && fresh(c.(*roleBase))
+//@   ensures len(c.(*roleBase).Connect) == old(len(r.Connect)) && fresh(c.(*roleBase).Connect)
+//@   ensures forall i int :: 0 <= i && i < old(len(r.Connect)) ==> c.(*roleBase).Connect[i] == old(r.Connect[i])
+//@   ensures len(c.(*roleBase).Bind) == old(len(r.Bind)) && fresh(c.(*roleBase).Bind)
+//@   ensures forall i int :: 0 <= i && i < old(len(r.Bind)) ==> c.(*roleBase).Bind[i] == old(r.Bind[i])
+//@   ensures len(c.(*roleBase).Constraints) == old(len(r.Constraints)) && fresh(c.(*roleBase).Constraints)
